@@ -94,6 +94,12 @@ func profileFor(check, tier, variant string) *CheckDef {
 		d.Readers, d.SharedReads, d.StatsCalls = true, true, true
 		d.Concurrent, d.ForceSegVer = true, 1
 		d.MaxWindows = 4000
+	case "C08", "C08merge":
+		d.Check = "C08"
+		d.MinClients, d.MaxClients = 1, 2
+		d.MinOps, d.MaxOps = 0, 18
+		d.Diff = true
+		d.MergeHeavy = check == "C08merge"
 	case "C11":
 		d.MinClients, d.MaxClients = 1, 3
 		d.MinOps, d.MaxOps = 6, 22
